@@ -348,6 +348,47 @@ func genC19(seed int64, tier string) []caseOut {
 			}
 		}
 	}
+	// 2b. valid requests in other spellings (whitespace, member order, every legal escape incl. \/ and
+	// \uXXXX): a foreign encoder's output is still untrusted bytes
+	for _, v := range valids {
+		var tree interface{}
+		json.Unmarshal(v, &tree)
+		jt := toJV(tree)
+		for k := 0; k < 6; k++ {
+			runAll("valid-respelled", []byte(spell(jt, r, 1+k%2)))
+		}
+	}
+	// 2c. operation histories with every labelled failure class, each Apply under the guard: the
+	// failure paths of the applier (degraded create / recover, refused update ...) are code too
+	nh := 40
+	if tier == "thorough" {
+		nh = 1500
+	}
+	for i := 0; i < nh; i++ {
+		hc, cfgs := genHistory(r, "any", 6)
+		rm := &protocol.ResolutionModel{}
+		composer := doccomposer.New()
+		for si, st := range hc.Steps {
+			parser := operationparser.New(cfgs[si])
+			applier := operationapplier.New(cfgs[si], parser, composer)
+			aop := &operation.AnchoredOperation{Type: operation.Type(st.Type), OperationRequest: st.Bytes, TransactionTime: st.Time, TransactionNumber: st.Num,
+				ProtocolVersion: st.Ver, CanonicalReference: st.Canon, EquivalentReferences: st.Equiv}
+			var res *protocol.ResolutionModel
+			class, detail := guarded(func() error {
+				out, e := applier.Apply(aop, rm)
+				if e == nil {
+					res = out
+				}
+				return e
+			})
+			if class >= 2 || r.Intn(10) == 0 {
+				record("history-step:"+st.Label, "Applier.Apply-"+st.Type, st.Bytes, class, detail)
+			}
+			if class == 0 && res != nil {
+				rm = res
+			}
+		}
+	}
 	// 3. hostile patches
 	{
 		// first in a child process: an input that kills the process must not take the run down
